@@ -20,6 +20,7 @@ import ElfioVerif.Model.Symbols
 import ElfioVerif.Model.Reloc
 import ElfioVerif.Model.Arrange
 import ElfioVerif.Model.Versym
+import ElfioVerif.Model.Load
 import ElfioVerif.Gen.SitesC18
 namespace ElfioVerif
 open Gen
@@ -110,31 +111,12 @@ def relGetResolved := relGetResolvedWith tq_reloc_nosymtab
 
 /-! ### `set_entry` / `swap_symbols` (the callback of `arrange_local_symbols`) -/
 
-/-- `generic_set_entry_rel/rela<T>` with the two guards of fixes/16 -/
-def relSetGeneric (ops : Reloc.RecOps) (small : BitVec 64 → Bool) (nodata : Bool → Bool) (enc : Enc)
-    (b : SecBuf) (index : BitVec 64) (e : Reloc.Entry) : M SecBuf :=
-  if small b.entSize then pure b else
-  if nodata (secData b).isNone then pure b else
-  Reloc.setGeneric ops enc b index e
-
-/-- `set_entry(index, offset, symbol, type, addend)` (its Boolean result is not used by `swap_symbols`) -/
+/-- `set_entry(index, offset, symbol, type, addend)` (C11's model: `generic_set_entry_*` with the two guards
+    of fixes/16); its Boolean result is not used by `swap_symbols` -/
 def relSet (enc : Enc) (b : SecBuf) (index : BitVec 64) (e : Reloc.Entry) : M SecBuf :=
-  match Reloc.entriesNum b with
+  match Reloc.setEntry enc b index e with
   | .error f => .error f
-  | .ok n =>
-    if reloc_set_idx_oob index n then pure b else
-    if reloc_set_is32 (Reloc.classByte b.cls) then
-      if reloc_set_is_rel32 b.stype then
-        relSetGeneric Reloc.ops32rel tq_setrel32_small tq_setrel32_nodata enc b index e
-      else if reloc_set_is_rela32 b.stype then
-        relSetGeneric Reloc.ops32rela tq_setrela32_small tq_setrela32_nodata enc b index e
-      else pure b
-    else
-      if reloc_set_is_rel64 b.stype then
-        relSetGeneric Reloc.ops64rel tq_setrel64_small tq_setrel64_nodata enc b index e
-      else if reloc_set_is_rela64 b.stype then
-        relSetGeneric Reloc.ops64rela tq_setrela64_small tq_setrela64_nodata enc b index e
-      else pure b
+  | .ok r => pure r.1
 
 /-- one iteration of the loop body of `swap_symbols` -/
 def swapBody (enc : Enc) (first second : BitVec 64) (b : SecBuf) (i : BitVec 32) (cur : Reloc.Entry) :
@@ -460,6 +442,154 @@ def defGet (e : Enc) (b : SecBuf) (str : Option SecBuf) (num no : BitVec 32) : M
                   pure (some { flags := vd_flags (cv16 e) (verdef_vd_flags := flags),
                                ndx := vd_ndx (cv16 e) (verdef_vd_ndx := ndx),
                                hash := vd_hash (cv32 e) (verdef_vd_hash := hash), name })
+
+/-! ### the queries on a loaded object
+
+The accessors are constructed on sections of the object: `sections[i]` (`none`: the index is out of
+range, a null pointer), made resident by `section::get_data()` against the real stream (`secGetData`). -/
+
+/-- `sections[i]->get_data()` on the object: the new object and the (now settled) section -/
+def settle (o : Obj) (i : Nat) : Option (Obj × SecBuf) :=
+  match o.secs[i]? with
+  | none => none
+  | some b =>
+    let r := secGetData o.cls o.trans { st := o.stream } b
+    some ({ o with secs := o.secs.set i r.2, stream := r.1.st }, r.2)
+
+/-- `settle` when the section may be absent: the object and `sections[i]` (`none` = nullptr) -/
+def settleOpt (o : Obj) (i : Nat) : Obj × Option SecBuf :=
+  match settle o i with
+  | none => (o, none)
+  | some (o', s) => (o', some s)
+
+def isHashTy (t : BitVec 32) : Bool :=
+  t == BitVec.ofNat 32 SHT_HASH || t == BitVec.ofNat 32 SHT_GNU_HASH || t == BitVec.ofNat 32 DT_GNU_HASH
+
+/-- the loop of `find_hash_section()` over `sections[j], j < nSecNo` -/
+def findHashGo (idx n : Nat) : List SecBuf → Nat → Nat
+  | [], _ => 0
+  | s :: rest, j =>
+    if j ≥ n then 0
+    else if s.link.toNat == idx % 65536 && isHashTy s.stype then j else findHashGo idx n rest (j + 1)
+
+/-- `find_hash_section()` : index of the first section linked to section `idx` that has a hash type
+    (`hash_section_index`; 0 also means "none") -/
+def findHash (o : Obj) (idx : Nat) : Nat := findHashGo idx (o.secs.length % 65536) o.secs 0
+
+/-- `symbol_section_accessor( elf, sections[i] )` : the symbol section, `sections[(Elf_Half)sh_link]` and
+    the hash section, all made resident (a section that occurs twice is settled by its first visit) -/
+def symTabFor (o : Obj) (i : Nat) : Option (Obj × SymTab) :=
+  match settle o i with
+  | none => none
+  | some (o1, b) =>
+    let r2 := settleOpt o1 (b.link.setWidth 16).toNat
+    let hi := findHash r2.1 b.index
+    let r3 := if hi == 0 then (r2.1, none) else settleOpt r2.1 hi
+    some (r3.1, { cfg := ⟨o.cls, o.enc⟩, sym := b, str := r2.2, hash := r3.2 })
+
+/-- indices of the relocation sections the `arrange` callback updates: every OTHER section of type
+    SHT_REL / SHT_RELA whose sh_link is `i` -/
+def relsOf (o : Obj) (i : Nat) : List Nat :=
+  (List.range (o.secs.length % 65536)).filter fun j =>
+    match o.secs[j]? with
+    | some r => j != i && (r.stype == BitVec.ofNat 32 SHT_REL || r.stype == BitVec.ofNat 32 SHT_RELA) && r.link.toNat == i
+    | none => false
+
+/-- make the listed sections resident -/
+def settleAll (o : Obj) : List Nat → Obj
+  | [] => o
+  | j :: js => settleAll (settleOpt o j).1 js
+
+/-- write the sections back at the listed indices -/
+def putAll (secs : List SecBuf) : List Nat → List SecBuf → List SecBuf
+  | j :: js, r :: rs => putAll (secs.set j r) js rs
+  | _, _ => secs
+
+inductive Query
+  | relGet (i : Nat) (k : BitVec 64)
+  | relGetResolved (i : Nat) (k : BitVec 64)
+  | symByName (i : Nat) (name : Bytes)
+  | symByValue (i : Nat) (v : BitVec 64)
+  | arrGet (w : Arr.W) (i : Nat) (k : BitVec 64)
+  | versymGet (i : Nat) (k : BitVec 32)
+  /-- `num` = the DT_VERNEEDNUM value the accessor's constructor found (ANY value) -/
+  | needGet (i : Nat) (num k : BitVec 32)
+  | defGet (i : Nat) (num k : BitVec 32)
+  | arrange (i : Nat)
+  deriving Repr
+
+inductive Out
+  | null                                    -- `sections[i]` is a null pointer: nothing to query
+  | rel (r : Option Reloc.Entry)
+  | resolved (r : Resolved)
+  | byName (r : Bool × Attrs)
+  | byValue (r : Bool × Bytes × Attrs)
+  | addr (r : Option (BitVec 64))
+  | half (r : Option (BitVec 16))
+  | need (r : Option Verneed.View)
+  | vdef (r : Option Verdef.View)
+  | arranged (ret : BitVec 64)
+  deriving Repr
+
+def liftQ {α : Type} (o : Obj) (x : M α) (f : α → Out) : M (Obj × Out) :=
+  match x with
+  | .error e => .error e
+  | .ok a => pure (o, f a)
+
+/-- one query against the loaded object -/
+def runQuery (o : Obj) : Query → M (Obj × Out)
+  | .relGet i k =>
+    match settle o i with
+    | none => pure (o, .null)
+    | some (o1, b) => liftQ o1 (relGet o.enc b k) .rel
+  | .relGetResolved i k =>
+    match settle o i with
+    | none => pure (o, .null)
+    | some (o1, b) =>
+      match symTabFor o1 (relSymtabIndex b) with
+      | none => liftQ o1 (relGetResolved o.enc b none k) .resolved
+      | some (o2, st) => liftQ o2 (relGetResolved o.enc b (some st) k) .resolved
+  | .symByName i name =>
+    match symTabFor o i with
+    | none => pure (o, .null)
+    | some (o1, st) => liftQ o1 (getByName st name {}) .byName
+  | .symByValue i v =>
+    match symTabFor o i with
+    | none => pure (o, .null)
+    | some (o1, st) => liftQ o1 (getByValue st v [] {}) .byValue
+  | .arrGet w i k =>
+    match settle o i with
+    | none => pure (o, .null)
+    | some (o1, b) => liftQ o1 (arrGet w o.enc b k) .addr
+  | .versymGet i k =>
+    match settle o i with
+    | none => pure (o, .null)
+    | some (o1, b) => liftQ o1 (versymGet b (Versym.mk b) k) .half
+  | .needGet i num k =>
+    match settle o i with
+    | none => pure (o, .null)
+    | some (o1, b) =>
+      let r := settleOpt o1 b.link.toNat
+      liftQ r.1 (needGet o.enc b r.2 num k) .need
+  | .defGet i num k =>
+    match settle o i with
+    | none => pure (o, .null)
+    | some (o1, b) =>
+      let r := settleOpt o1 b.link.toNat
+      liftQ r.1 (defGet o.enc b r.2 num k) .vdef
+  | .arrange i =>
+    match settle o i with
+    | none => pure (o, .null)
+    | some (o1, _) =>
+      let idxs := relsOf o1 i
+      let o2 := settleAll o1 idxs
+      match o2.secs[i]? with
+      | none => pure (o2, .null)
+      | some s =>
+        match arrange (swapAll o.enc) s (idxs.filterMap fun j => o2.secs[j]?) with
+        | .error e => .error e
+        | .ok (s', rels', ret) =>
+          pure ({ o2 with secs := putAll (o2.secs.set i s') idxs rels' }, .arranged ret)
 
 end TQ
 end ElfioVerif
